@@ -111,7 +111,9 @@ def _worker(machine, prop, verif_seed, cfg, indices, deadline, out_fd, max_keep)
         "last_index": None,
         "cut_short": False,
         "failed_runs": 0,
+        "digests": {},
     }
+    collect = bool(cfg.get("_collect_digests"))
     for index in indices:
         if deadline is not None and time.monotonic() > deadline:
             agg["cut_short"] = True
@@ -130,6 +132,8 @@ def _worker(machine, prop, verif_seed, cfg, indices, deadline, out_fd, max_keep)
             continue
         for k, v in res.get("counters", {}).items():
             agg["counters"][k] = agg["counters"].get(k, 0) + v
+        if collect:
+            agg["digests"][str(index)] = [res.get("digest"), sorted(v["rule"] for v in res.get("verdicts", []))]
         if res.get("nontrivial"):
             agg["distinct"].add(res.get("shape"))
         if res.get("verdicts"):
@@ -207,6 +211,7 @@ def run_batch(
         "cut_short": False,
         "failed_runs": 0,
         "worker_errors": [],
+        "digests": {},
     }
     for pid, fd in procs:
         os.close(fd)
@@ -229,6 +234,7 @@ def run_batch(
         total["timeouts"].extend(agg["timeouts"])
         total["harness_errors"].extend(agg["harness_errors"])
         total["samples"].extend(agg["samples"])
+        total["digests"].update(agg.get("digests", {}))
         total["cut_short"] = total["cut_short"] or agg["cut_short"]
     total["failures"].sort(key=lambda f: f["index"])
     total["timeouts"].sort()
